@@ -9,6 +9,7 @@ import PhotVerif.Driver.Catalog
 import PhotVerif.Driver.Peaks
 import PhotVerif.Driver.Render
 import PhotVerif.Driver.ApStats
+import PhotVerif.Driver.Psf
 namespace PhotVerif.Driver
 
 /-- driver state: the objects that live across lines (state-machine models) -/
@@ -16,7 +17,7 @@ structure DState where
   segm : Option PhotVerif.Model.Segm.State := none
 
 def handlers : List (String → List String → Option String) :=
-  [handleGeom, handleMask, handleApSum, handleDetect, handleDeblend, handleLazy, handleCatalog, handlePeaks, handleRender, handleApStats]
+  [handleGeom, handleMask, handleApSum, handleDetect, handleDeblend, handleLazy, handleCatalog, handlePeaks, handleRender, handleApStats, handlePsf]
 
 def dispatch (st : DState) (line : String) : DState × String :=
   match tokens line with
